@@ -561,6 +561,42 @@ def r07f(ctx, inst):
 PROCESS_WIDE_WRAPPERS = {"colorama.init": "wraps sys.stdout and sys.stderr in one more stream wrapper on every call"}
 
 
+def _conditional_within(node, fn):
+    p_ = parent(node)
+    while p_ is not None and p_ is not fn:
+        if isinstance(p_, (ast.If, ast.For, ast.While)):
+            return True
+        p_ = parent(p_)
+    return False
+
+
+def r07l(ctx):
+    m = ctx.model
+    ctx.rule("R07l", "an edited copy starts with fresh edit state: the constructor of every Edited* class copies the wrapped node's "
+                     "attributes and THEN runs EditedTreeNode.__init__ (removed, inserted, matched_to, edit_list, edit).  In the other "
+                     "order - or with an in-place merge - the wrapped node's own edit state, present when it is itself the result of an "
+                     "earlier diff, overwrites the fresh one: the copy shares the original's edit_list and `inserted` lists, the next "
+                     "diff appends to them, so a comparison alters the tree it was given and repeating it gives a different cost")
+    f = m.functions.get("graphtage.tree.TreeNodeMeta.edited_type.<locals>.init")
+    if f is None:
+        ctx.inconclusive("R07l", "graphtage/tree.py", "TreeNodeMeta.edited_type", None, "edited constructor", "inner init of edited_type not found")
+        return
+    etn = func_params(f.node)[0]
+    pops = [x for x in walk_no_nested(f.node) if (isinstance(x, ast.Assign) and dotted(x.targets[0]) == f"{etn}.__dict__")
+            or (isinstance(x, ast.Call) and isinstance(x.func, ast.Attribute) and x.func.attr == "update" and dotted(x.func.value) == f"{etn}.__dict__")]
+    inits = [c for c in walk_no_nested(f.node) if isinstance(c, ast.Call) and dotted(c.func) == "EditedTreeNode.__init__"]
+    ctx.floor("R07l", len(pops) + len(inits), 2, "population and fresh-state statements in the edited constructor")
+    if pops and inits and all(i.lineno > max(getattr(p_, "end_lineno", p_.lineno) for p_ in pops) for i in inits) \
+            and not any(_conditional_within(i, f.node) for i in inits):
+        ctx.proved("R07l", f.file, "TreeNodeMeta.edited_type.init", inits[0], "fresh edit state last",
+                   "EditedTreeNode.__init__ runs after the wrapped node's attributes were copied, unconditionally")
+    else:
+        ctx.violation("R07l", f.file, "TreeNodeMeta.edited_type.init", (inits or pops or [f.node])[0], "fresh edit state last",
+                      "the fresh edit state (EditedTreeNode.__init__) is not established after the wrapped node's attributes are copied: "
+                      "`first = a.diff(b); first.diff(c)` then shares first's edit_list / inserted lists with the new copy, appends the new "
+                      "edits to them, and three repeats of first.diff(c) cost 19, 38, 57")
+
+
 def r07g(ctx):
     m = ctx.model
     ctx.rule("R07g", "process-wide installers run at most once: colorama.init() re-wraps sys.stdout/sys.stderr on every call, so it "
@@ -729,6 +765,9 @@ def r07j(ctx):
 
 
 def run(ctx):
+    r07l(ctx)
+    from ..memo import e13
+    e13(ctx)          # no value is cached under part of its inputs (stale output on reuse)
     m = ctx.model
     cg = CallGraph(m)
     ent, inst = diff_entries(m)
